@@ -76,3 +76,19 @@ Theorem C19_reencode_backoff_refuted :
   exists (fmt6 : Z -> Z) docs, reencode fmt6 docs <> effective docs.
 Proof. exact reencode_backoff_refuted. Qed.
 Print Assumptions C19_reencode_backoff_refuted.
+
+(* ---- chunk size of a source's queue (main/client.go init) after inheritance of tags
+   and bin-size between the sources of one sender ------------------------------------ *)
+Theorem C19_chunk_is_own_bin_or_written : forall pre s post x,
+  cs_bin s <> 0 ->
+  In x (nth (length pre) (chunk_table (pre ++ s :: post)) []) ->
+  x = cs_bin s \/ (x <> 0 /\ In x (written_chunks (pre ++ s :: post))).
+Proof. exact chunk_own_bin_or_written. Qed.
+Print Assumptions C19_chunk_is_own_bin_or_written.
+
+Theorem C19_chunk_own_tags : forall pre s post t,
+  cs_tags s = Some t ->
+  exists b, nth (length pre) (chunk_table (pre ++ s :: post)) [] = map (fun c => queue_chunk c b) (tags_chunks t) /\
+            (cs_bin s <> 0 -> b = cs_bin s).
+Proof. exact chunk_own_tags. Qed.
+Print Assumptions C19_chunk_own_tags.
